@@ -80,7 +80,7 @@ FIN_FAILERS = sorted(k for k in FAILERS if k.startswith("fin_"))
 # option sets every run of one case (joint and single) is given in addition to -q -i
 OPTSETS = [[], ["-Y"], ["-x"], ["-x", "-x"], ["-U"], ["-L"], ["-C", "-L"], ["-g"], ["-u", "-L"], ["-s", "-L"],
            ["-gnuerrors"], ["-Werror"], ["-Y", "-x", "-L"], ["-h"], ["-n"], ["-r"], ["-A"], ["-t", "0"], ["-P"],
-           ["-M"], ["-I", "-L"], ["-compmode"], ["-relaxed"], ["-maxerrors", "3"]]
+           ["-M"], ["-I", "-L"], ["-compmode"], ["-relaxed"], ["-maxerrors", "3"], ["-E"], ["-E", "-x"], ["-E", "-gnuerrors"]]
 
 
 def _exp_probe(total):
@@ -261,7 +261,8 @@ def source_of(n, idx):
 def run_set(names, idxs, opts=()):
     """assemble the given (index, name) entries in one run; returns (result, {idx: p bytes|None})"""
     with run.Work("c18") as d:
-        argv = ["asl", "-q", "-i", asl.INCLUDE_DIR] + list(opts)
+        bare_e = "-E" in opts
+        argv = ["asl", "-q", "-i", asl.INCLUDE_DIR] + [o for o in opts if o != "-E"]
         outs = {}
         for i in idxs:
             fn, src, extra = source_of(names[i], i)
@@ -274,9 +275,15 @@ def run_set(names, idxs, opts=()):
             argv += ["-o", "out%d.p" % i]
         for i in idxs:
             argv += ["-shareout", "out%d.h" % i]
+        if bare_e:
+            argv.append("-E")       # without a name (last argument): messages go to <source>.log, one per source
         r = run.run(argv, d, timeout=40, cpu=10)
         for i in idxs:
             outs[i] = run.read(d, "out%d.p" % i)
+        if bare_e:
+            for i in idxs:
+                fn, _, _ = source_of(names[i], i)
+                outs[("log", i)] = (run.read(d, fn.rsplit(".", 1)[0] + ".log") or b"<no log file>").decode("latin-1")
         return r, outs, argv
 
 
@@ -305,7 +312,7 @@ def execute(case):
         r, o, _ = run_set(names, [i], opts)
         if r.timed_out:
             return engine.inconclusive("timeout", classes)
-        singles.append((r, o[i]))
+        singles.append((r, o[i], o.get(("log", i))))
     detail = dict(argv=jargv, status=joint.status, stderr=joint.err[-800:],
                   single_status=[s[0].status for s in singles])
     if joint.signal:
@@ -325,6 +332,12 @@ def execute(case):
             return engine.bad("code file of %s (position %d after %s) %s" % (label(names[i]), i,
                                                                              [label(x) for x in names[:i]], what),
                               key, classes, single_stderr=singles[i][0].err[-400:], **detail)
+    if "-E" in opts:
+        for i in idxs:
+            a, b = jouts[("log", i)], singles[i][2]
+            if a != b:
+                return engine.bad("error log of %s (position %d, option -E without a name) differs: joint run %r, alone %r"
+                                  % (label(names[i]), i, a[:160], b[:160]), key, classes, **detail)
     exp_err = "".join(s[0].err for s in singles)
     if joint.err != exp_err:
         ja, ea = joint.err.split("\n"), exp_err.split("\n")
